@@ -159,6 +159,10 @@ def source(names):
 def build(tier, seed):
     names = list(SHAPES)
     tasks = []
+    # sessions started in a directory that does not contain the test files (absolute path on the command line / a sibling directory)
+    for where in ("sibling", "parent-of-nothing", "subdir-of-project"):
+        tasks.append({"progs": [[n] for n in ("fail-then-empty", "fail-then-trim", "never-compared-list", "inner-deleted", "outsource-create")],
+                      "fs": [list(CATS), ["create", "fix"], ["fix"], []], "drv": "plugin", "cwd": where})
     for i in range(0, len(names), 2):
         tasks.append({"progs": [[n] for n in names[i : i + 2]], "fs": FS, "drv": "inline"})
     pairs = list(itertools.permutations(names, 2))
@@ -174,6 +178,8 @@ def build(tier, seed):
 
 def run_case(case):
     names, F, drv = case["names"], case["F"], case["drv"]
+    if case.get("cwd"):
+        return _run_elsewhere(case)
     src = source(names)
     viol = []
 
@@ -207,11 +213,39 @@ def run_case(case):
     return viol
 
 
+def _run_elsewhere(case):
+    import os
+    from ..drivers import plugin
+
+    src = source(case["names"])
+    root = plugin.mk_project({})
+    proj = os.path.join(root, "proj")
+    plugin.write_files(proj, {"tests/test_something.py": src, "pyproject.toml": "", "docs/readme.txt": "x"})
+    cwd = {"sibling": os.path.join(root, "elsewhere"), "parent-of-nothing": root, "subdir-of-project": os.path.join(proj, "docs")}[case["cwd"]]
+    os.makedirs(cwd, exist_ok=True)
+    viol = []
+    try:
+        r = plugin.session(cwd, ["--inline-snapshot=" + ",".join(case["F"]), os.path.join(proj, "tests")])
+        after = plugin.listing(proj, text=True).get("tests/test_something.py", "")
+    finally:
+        plugin.cleanup()
+    if plugin.internal_error(r["out"]) or r["rc"] not in (0, 1):
+        viol.append({"case": case, "what": "finish-phase-exception", "detail": "session started in %s, rc=%s\n%s\n--- program ---\n%s" % (case["cwd"], r["rc"], r["out"][-1200:], src[len(PRE):][-600:])})
+        return viol
+    try:
+        ast.parse(after)
+    except SyntaxError as e:
+        viol.append({"case": case, "what": "result-not-valid-python", "detail": "%s\n%s" % (e, after[len(PRE):][-600:])})
+    return viol
+
+
 def run_task(task):
     out = {"n": 0, "nontrivial": [], "outcomes": {}, "violations": [], "samples": []}
     for names in task["progs"]:
         for F in task["fs"]:
             case = {"names": names, "F": F, "drv": task["drv"]}
+            if task.get("cwd"):
+                case["cwd"] = task["cwd"]
             vs = run_case(case)
             out["n"] += 1
             if vs:
